@@ -316,8 +316,18 @@ func ruleArraySlices(c *Ctx, r *Report, prefix string) {
 			}
 		}
 	}
+	// the sites may legitimately disappear (a scratch array replaced by a slice); what must not happen
+	// is that nothing was looked at
+	scanned := 0
+	for fn := range cone {
+		if fn.Blocks != nil && c.InModule(fn) {
+			scanned++
+		}
+	}
+	if scanned >= 40 {
+		r.Pass(rule, "reader-cone", "", fmt.Sprintf("%d functions reachable from the reader API scanned, %d slices of arrays with variable bounds", scanned, n), 1)
+	}
 	r.Floor(rule, 2)
-	_ = n
 }
 
 func boundStr(h int64) string {
